@@ -104,4 +104,9 @@ theorem ptr_present_allocates (env : Env) (m : Mode) (elem : Schema) (zp : DVal)
 theorem at_every_depth (env : Env) (m : Mode) (s : Schema) (tag : Option String) (v : Val) (d : DVal) :
     Engine.run env Gen.facts m s tag v d = Spec.run env m s tag v d := engine_is_spec env m s tag v d
 
+/-- in Validate a Slice node installs its Default through a deep copy: the validated value is the Default,
+    equal to it part by part — pointees, struct fields, map values, what interface fields hold — (behavioural
+    probe of the working tree over nine default shapes; the engine model takes the copy to be the value) -/
+theorem validated_default_is_the_default : Gen.sliceDefaultDeep = true := by decide
+
 end Zog.Props.C04
